@@ -387,6 +387,28 @@ func (c *specCtx) call(x *SExpr) Value {
 	case "inv":
 		v := c.tr(x.Args[0])
 		return boolV(e.typeInvTerm(v, c.oldMap))
+	case "memAt":
+		v := c.tr(x.Args[0])
+		if v.K == VSlice {
+			return intV(Select(Select(e.mem(), v.Ref), c.intTerm(x.Args[1])))
+		}
+		c.errorf("spec: memAt of non-slice")
+		return intV(IntLit(0))
+	case "kept":
+		// kept(x): the bytes visible through slice x before the call are still there (in x's old array)
+		if c.oldMap == nil {
+			c.errorf("kept() needs an old state")
+			return boolV(True)
+		}
+		v := c.toOld(c.tr(x.Args[0]))
+		if v.K != VSlice {
+			c.errorf("spec: kept of non-slice")
+			return boolV(True)
+		}
+		j := Bound("j$", SInt)
+		oldMem := e.mem().Subst(c.oldMap)
+		return boolV(Forall([]*Term{j}, Implies(And(Le(IntLit(0), j), Lt(j, Add(v.Off, v.Len))),
+			Eq(Select(Select(e.mem(), v.Ref), j), Select(Select(oldMem, v.Ref), j)))))
 	case "memOf":
 		// memOf(r): the byte array stored at ref r (an Int)
 		r := c.intTerm(x.Args[0])
